@@ -122,7 +122,8 @@ def build(ob, sym=True, values=None):
     o = ob['op']; inputs = {}
     stack = [item('s%d' % i, L) for i, L in enumerate(ob['lens'])]
     for k, bs in (ob.get('cvals') or {}).items(): stack[int(k)] = list(bs)
-    alt = [item('a%d' % i, 1) for i in range(ob['alt'])]
+    stack = [[] for _ in range(ob.get('pad', 0))] + stack
+    alt = [[] for _ in range(ob.get('altpad', 0))] + [item('a%d' % i, 1) for i in range(ob['alt'])]
     script = []
     if ob['prefix']: script.append(0x61)
     pc = len(script)
@@ -144,7 +145,7 @@ def build(ob, sym=True, values=None):
     req = sesslib.sess_request(ob['mode'], flags, ob['sv'], stack, script, ob.get('allow', 0), ob['checker'], (txv, txl, txs), pre)
     S = R.RS(stack=stack, alt=alt, vf_size=ob['vf'][0], vf_ff=ob['vf'][1], nop=nop, flags=flags, sigversion=ob['sv'], script=script, pc=pc, allow_disabled=bool(ob.get('allow', 0)),
              checker='tx' if ob['checker'] == 1 else 'base', tx_version=txv, tx_locktime=txl, tx_sequence=txs)
-    inputs = dict(flags=flags, nop=nop, txver=txv, txlock=txl, txseq=txs, stack=stack, alt=alt, script=script)
+    inputs = dict(flags=flags, nop=nop, txver=txv, txlock=txl, txseq=txs, stack=stack, alt=alt, script=script, _pad=ob.get('pad', 0), _altpad=ob.get('altpad', 0))
     return req, S, inputs, assume
 
 def impl_outcome_from(rep, mode):
@@ -184,9 +185,10 @@ def run(E, ob):
 
 def concrete_values(cex):
     V = {}
-    for i, it in enumerate(cex['stack']):
+    np_ = len(cex['stack']) - len([x for x in cex.get('_lens', [])]) if '_lens' in cex else 0
+    for i, it in enumerate(cex['stack'][cex.get('_pad', 0):]):
         for j, b in enumerate(it): V['s%d_%d' % (i, j)] = b
-    for i, it in enumerate(cex['alt']):
+    for i, it in enumerate(cex['alt'][cex.get('_altpad', 0):]):
         for j, b in enumerate(it): V['a%d_%d' % (i, j)] = b
     V.update(flags=cex['flags'], nop=cex['nop'], txver=cex['txver'], txlock=cex['txlock'], txseq=cex['txseq'])
     return V
